@@ -108,8 +108,8 @@ def c06b(prog, R, L):
     r.floor(4)
 
 
-def c06c(prog, R):
-    r = R.rule("C06.c", "version transitions are applied to the version current at commit (closure parameter)", "D")
+def c06c(prog, R, rid="C06.c"):
+    r = R.rule(rid, "version transitions are applied to the version current at commit (closure parameter)", "D")
     n = 0
     for uc in prog.all_calls(A.UPGRADE, A.UPGRADE_SEQNO):
         f = uc.fn
